@@ -480,6 +480,13 @@ class Interp:
                 raw = ep[2].get(self.r.EPTR_RAW) if ep[0] == "struct" else None
                 if raw is not None and raw[0] == "ptr":
                     tgt = self.resolve_ptr(st, raw)[0]
+                    # splicing in a node that is still part of the list (neither unlinked in place before, nor freshly inserted into
+                    # the table) leaves its old neighbours pointing at it: the chain gets a cycle / skips entries
+                    tv_ = st.store.get(tgt)
+                    if tgt[0] == "E" and tv_ is not None and tv_[0] == "struct" and tv_[1] == self.r.entry \
+                            and tv_[2].get("#tid") in self.cache_tids(st) and tgt not in self.gset(st, "unhinged") \
+                            and tgt not in self.gset(st, "unlinked") and "*" not in self.gset(st, "unhinged"):
+                        self.gadd(st, "relinked", "an entry that is still linked is spliced in again by %s" % body.path.split("::")[-1])
                     # linked next to the seal on the MRU side?  (prev = seal, next = seal's MRU link) -- recorded as promotion
                     self.gadd(st, "promoted", tgt)
                     self.gadd(st, "promoted_any", "yes")
@@ -492,6 +499,35 @@ class Interp:
                     self.gadd(st, "maypromoted", "yes")
             except Unsupported:
                 pass
+
+    def lru_end_distinct(self, st, ent, c):
+        """`ent` is the entry at the LRU end of the list of table c["tid"] (first step of an LRU-direction traversal).  If exactly one
+        live entry m of that table is known to sit at the MRU end (the one entry this operation promoted), then ent = m iff the list
+        has a single entry, i.e. (premise P-list) iff  N = 1 and G = size(m).  When the numeric state excludes that, ent and m are
+        different entries: record it (a removal of ent then leaves handles to m valid) together with  N >= 2, size + size(m) <= G."""
+        r = self.r
+        ms = []
+        for m in self.gset(st, "promoted"):
+            mv = st.store.get(m) if isinstance(m, tuple) else None
+            if mv is not None and mv[0] == "struct" and mv[1] == r.entry and mv[2].get("#tid") == c["tid"] and is_int(mv[2].get(r.E_SIZE)):
+                ms.append(m)
+            else:
+                return          # something else was promoted as well (or the promoted entry is no longer tracked): no claim
+        if len(ms) != 1:
+            return
+        m = ms[0]
+        msize = st.store[m][2][r.E_SIZE][1]
+        probe = st.num.copy()
+        probe.add(eq(c["Rn"], 1))
+        probe.add(eq(c["R"], msize))
+        if probe.feasible():
+            return
+        ev = st.store[ent]
+        f = dict(ev[2])
+        f["#distinct"] = frozenset([m])
+        st.store[ent] = ("struct", ev[1], f)
+        st.num.add(ge(c["Rn"], 2))
+        st.num.add(le(f[r.E_SIZE][1] + msize, c["R"]))
 
     def cache_tids(self, st):
         """tids of the tables currently installed in cache objects"""
@@ -682,8 +718,10 @@ class Frame:
             ty = c["ty"]
             if ty == "bool":
                 return ("bool", bool(c["int"]))
-            if ty in UNSIGNED or ty in SIGNED:
-                return vint(c["int"])
+            if ty == "usize" and int(c["int"]) in (2 ** 64 - 1, 2 ** 32 - 1):
+                # usize::MAX stays symbolic (the same symbol bounds every usize quantity): width-independent reasoning
+                st.num.add(ge(Lin.sym("UM"), 0))
+                return vint(Lin.sym("UM"))
             return vint(c["int"])
         if c.get("ty") == "()":
             return ("unit",)
@@ -1122,6 +1160,8 @@ class Frame:
                     st.num.add(ge(c["Rn"], 1))
                     ent = ip.new_entry_obj(st, c["tid"], size, cur={"dir": c["dir"], "R": c["R"], "Rn": c["Rn"], "seal": c["seal"], "tid": c["tid"],
                                                                      "first": bool(c.get("first"))})
+                    if c.get("first") and c["dir"] == ip.r.L_LRU:
+                        ip.lru_end_distinct(st, ent, c)
                     c["res"] = ent
                     st.store[x[1]] = ("cursor", c)
                     return st.num.feasible()
